@@ -249,6 +249,47 @@ def main(argv):
     cands = sorted(set(cands), key=repr)
     run.bounds["level3_candidates"] = len(cands)
     lvl3, _ = dedup(run_level(cands, U, envs, PID, run, run.seed, sample_every=2000), seen, 3, run)
+    # untangling pipelines (depth 5, own comb): list tensors of indexed components, indexed by a pool index,
+    # rewrapped as component tensor in every index order, then indexed with every fixed/free pattern; and products
+    # of two index-carrying level-1 states (tensor-valued index sums) indexed again with the pool indices
+    cands = []
+    pool = sorted(U.idx)
+    from mc.explore import StateInfo
+
+    comp1 = [s for s in lvl1 if s.fid and s.rank == 0 and s.recipe[0] == "getitem" and len(s.fid) == 1]
+    lists = []
+    for a in comp1:
+        for b in comp1:
+            if set(a.fid) == set(b.fid) and a.fid == b.fid and (not quick or (a.recipe[1][1] in ("v", "w", "A") and b.recipe[1][1] in ("v", "w", "A"))):
+                r = ("as_vector", a.recipe, b.recipe)
+                cands.append(r)
+                lists.append(StateInfo(r, (2,), a.fid, False, 2, None))
+    for s in lists:
+        for k in pool:
+            if k in s.fid:
+                continue
+            inner = ("getitem", s.recipe, k)
+            names = sorted(set(s.fid) | {k})
+            for perm in itertools.permutations(names, 2):
+                if len(names) > 2:
+                    continue
+                ct = ("as_tensor", inner) + perm
+                cands.append(ct)
+                for comp in IDX2:
+                    cands.append(("getitem", ct) + comp)
+    idx1 = [s for s in lvl1 if s.fid and s.recipe[0] == "getitem"]
+    for a in idx1:
+        for b in idx1:
+            if not (set(a.fid) & set(b.fid)) or (a.rank == 0 and b.rank == 0):
+                continue
+            pr = ("mul", a.recipe, b.recipe)
+            cands.append(pr)
+            for comp in IDX1 if max(a.rank, b.rank) == 1 else IDX2:
+                cands.append(("getitem", pr) + comp)
+    cands = sorted(set(cands), key=repr)
+    run.bounds["pipeline_candidates"] = len(cands)
+    lvlp, _ = dedup(run_level(cands, U, envs, PID, run, run.seed, sample_every=2000), seen, 4, run)
+    run.bounds["pipeline_states"] = len(lvlp)
     run.bounds.update(
         depth=3,
         terminals=sorted(U.t),
